@@ -2123,9 +2123,10 @@ class MultiUserChannelMatrixExtInt(  # pylint: disable=R0904
     @property
     def H_no_ext_int(self) -> np.ndarray:
         """Get method for the H_no_ext_int property."""
-        # Call H property get method of the base class
-        H = MultiUserChannelMatrix.H.fget(self)  # type: ignore
-        return H[:self.K, :self.K]
+        # self.H already has only the rows of the self.K receivers and
+        # accounts the path loss (if any). Drop the columns of the external
+        # interference sources.
+        return self.H[:, :self.K]
 
     def corrupt_data(  # type: ignore
             self, data: np.ndarray, ext_int_data: np.ndarray) -> np.ndarray:
